@@ -93,9 +93,29 @@ func runC03(c *eng.Ctx) {
 		// the re-check compares the caller's hw with l.hw
 		cmp := eng.CmpEdges(fn, eng.Load(hw, nil), eng.Param("hw"), eng.NE)
 		c.Check(len(cmp) > 0, "re-check of hw in waitForHW", p.Pos(fn.Pos()), "l.hw != hw is tested before parking", "waitForHW does not compare l.hw with the reader's value before parking: a watermark advance between the reader's check and registration is lost")
-		// registration only when unchanged
+		// registration only when unchanged, and in the critical section of the comparison
 		eng.Instrs(fn, func(in ssa.Instruction) {
 			if mu, ok := in.(*ssa.MapUpdate); ok {
+				var loads []ssa.Instruction
+				eng.Instrs(fn, func(x ssa.Instruction) {
+					if u, ok := x.(*ssa.UnOp); ok && eng.Load(hw, nil)(u) {
+						loads = append(loads, x)
+					}
+				})
+				released := false
+				for _, ld := range loads {
+					q := &eng.PathQuery{Fn: fn, FromAfter: []ssa.Instruction{ld}, Target: func(x ssa.Instruction) bool {
+						return eng.IsCallTo("sync.RWMutex.Unlock", "sync.RWMutex.RUnlock")(x)
+					}, CutInstr: func(x ssa.Instruction) bool { return x == ssa.Instruction(mu) }}
+					if w := q.Find(); w != nil {
+						// an unlock reachable before the registration: is the registration still reachable after it?
+						q2 := &eng.PathQuery{Fn: fn, FromAfter: []ssa.Instruction{w.At}, Target: func(x ssa.Instruction) bool { return x == ssa.Instruction(mu) }}
+						if q2.Find() != nil {
+							released = true
+						}
+					}
+				}
+				c.Check(!released && len(loads) > 0, "no release between the watermark check and parking", c.Pos(mu), "the comparison of l.hw and the registration happen in one critical section", "the log lock is released between comparing l.hw with the reader's value and registering the waiter: a watermark advance in that window notifies nobody and the reader parks for ever (lost wake-up)")
 				eq := eng.CmpEdges(fn, eng.Load(hw, nil), eng.Param("hw"), eng.EQ)
 				g, w := eng.GuardedBy(fn, mu, eq)
 				c.Check(g && len(eq) > 0, "waiter registration", c.Pos(mu), "registered only on the l.hw == hw edge", "waiter registered although the watermark already changed: "+w.String())
